@@ -1162,6 +1162,15 @@ class FilterAdaptor(IterVal):
             if I.branch(call_closure(I, self.f, Ref(Cell(x), ()))):
                 return x, FilterAdaptor(it, self.f)
 
+    def nxt_back(self, I):
+        it = self.inner
+        while True:
+            x, it = it.nxt_back(I)
+            if x is None:
+                return None, FilterAdaptor(it, self.f)
+            if I.branch(call_closure(I, self.f, Ref(Cell(x), ()))):
+                return x, FilterAdaptor(it, self.f)
+
 
 class FilterMapAdaptor(IterVal):
     __slots__ = ('inner', 'f')
